@@ -28,6 +28,10 @@ use crate::rng::{fnv64, Rng};
 pub enum Mode {
     Steps,
     Iter,
+    /// C14's robustness clause on a program stream: any start offset (also between the halves of
+    /// a surrogate pair), any text: no panic, termination within the step budget, ranges inside
+    /// the slice and in increasing order.
+    Robust,
 }
 
 const FUEL_ITER: u64 = 3_000_000;
@@ -312,6 +316,61 @@ fn case_steps(p: &Prepared, text: &[u16], start: usize, ucs2: bool, rep: &mut Re
     V::Held(pat.features.quantifiers > 0 && st.steps > 10)
 }
 
+fn case_robust(p: &Prepared, text: &[u16], start: usize, ucs2: bool, rep: &mut Report) -> V {
+    let name = if ucs2 { "find_from_ucs2" } else { "find_from_utf16" };
+    let d = decode(text, !ucs2);
+    let split = start <= text.len() && !d.off.contains(&start);
+    // A step budget is a verdict only when the reference model says the search is cheap.
+    let cheap = match &p.pat {
+        Some(pat) if pat.features.prop_escapes == 0 => {
+            let ci = d.off.iter().position(|&o| o >= start).unwrap_or(d.cps.len());
+            let (r, st) = esref::find_all(pat, &d.cps, ci, RefLimits { max_steps: REF_STEPS, max_depth: 20_000 }, engine::MAX_MATCHES);
+            r.is_ok() && st.steps < REF_STEPS
+        }
+        _ => false,
+    };
+    let r = engine::guarded(FUEL_STEPS, || {
+        let mut out = Vec::new();
+        if ucs2 {
+            for m in p.re.find_from_ucs2(text, start).take(engine::MAX_MATCHES) {
+                out.push(EMatch::from(&m));
+            }
+        } else {
+            for m in p.re.find_from_utf16(text, start).take(engine::MAX_MATCHES) {
+                out.push(EMatch::from(&m));
+            }
+        }
+        out
+    });
+    match r {
+        Guarded::Ok(ms) => {
+            let mut prev_end = 0usize;
+            for (j, m) in ms.iter().enumerate() {
+                let ok = m.range.0 <= m.range.1 && m.range.1 <= text.len() && m.caps.iter().flatten().all(|c| c.0 <= c.1 && c.1 <= text.len()) && (j == 0 || m.range.0 >= prev_end);
+                prev_end = m.range.1;
+                if !ok {
+                    return V::Violated { property: "C14", what: format!("{}: a range reported on arbitrary u16 input is outside the slice or out of order", name), observed: engine::show_matches(&ms), expected: "0 <= start <= end <= len, increasing".into() };
+                }
+            }
+            if start > text.len() && !ms.is_empty() {
+                return V::Violated { property: "C14", what: format!("{}: a start beyond the end yielded matches", name), observed: engine::show_matches(&ms), expected: "nothing".into() };
+            }
+            if split {
+                rep.inc("robust_cases_with_start_inside_a_pair");
+            }
+            V::Held(!ms.is_empty())
+        }
+        Guarded::Fuel => {
+            if cheap {
+                V::Violated { property: "C14", what: format!("{}: search on arbitrary u16 input did not terminate within the step budget", name), observed: format!("more than {} engine steps", FUEL_STEPS), expected: format!("terminates (the reference search over the decoded text needs fewer than {} steps)", REF_STEPS) }
+            } else {
+                V::Inconclusive("fuel")
+            }
+        }
+        Guarded::Panic(m) => V::Violated { property: "C14", what: format!("{} panicked on arbitrary u16 input (panic or failed debug assertion of the crate's own invariants)", name), observed: m, expected: "no panic".into() },
+    }
+}
+
 fn tweak(g: &mut GenCfg, rng: &mut Rng) {
     let mut a: Vec<u32> = "ab1\n".chars().map(|c| c as u32).collect();
     let extra = [0x10000u32, 0x10400, 0x10428, 0x1F600, 0x10FFFF, 0xE9, 0xFFFF, 0x212A, 0x17F, 0x20E3];
@@ -407,11 +466,16 @@ fn run_case(mode: Mode, p: &Prepared, text: &[u16], start: usize, ucs2: bool, re
     match mode {
         Mode::Iter => case_iter(p, text, start, ucs2, rep),
         Mode::Steps => case_steps(p, text, start, ucs2, rep),
+        Mode::Robust => case_robust(p, text, start, ucs2, rep),
     }
 }
 
 pub fn run(cfg: &Cfg, rep: &mut Report, mode: Mode) {
-    let check = if mode == Mode::Iter { "c09u16" } else { "c05u16" };
+    let check = match mode {
+        Mode::Iter => "c09u16",
+        Mode::Steps => "c05u16",
+        Mode::Robust => "c14u16",
+    };
     if let Some(r) = &cfg.replay {
         let case = r.get("case").unwrap_or(r);
         let pat: Vec<u32> = case.get("pattern_cps").and_then(|a| a.as_arr()).map(|a| a.iter().filter_map(|x| x.as_i64()).map(|x| x as u32).collect()).unwrap_or_default();
@@ -437,6 +501,8 @@ pub fn run(cfg: &Cfg, rep: &mut Report, mode: Mode) {
         ("(?:)", ""), ("a", ""), ("x.*?a", "s"), ("a*", ""), ("\\b", ""), (".", ""), (".", "u"), ("(?<=.)", "u"), ("[^a]+", ""), ("[^a]*?", ""), ("\\uD800", ""), ("\\uDC00", ""), ("[\\uD800-\\uDBFF]", ""), ("[\\uD800-\\uDBFF][\\uDC00-\\uDFFF]", ""),
         ("(.)\\1", "iu"), ("(?<=(.)\\1)", "i"), ("\\b", "iu"), ("^.*$", "ms"), ("(?<!.)", "s"), ("a|", ""), (".*?", "s"), (".*?a", "s"), (".+?$", "s"), ("\\W", "iu"), ("(?:.{2})*", "su"), ("\u{10000}", ""), ("\u{10000}", "u"), ("[\u{10000}]", "u"),
         ("(?<=\u{10000})", "u"), ("(?<=.*?)a", "s"), ("(?<=\\W*?)", ""), ("[^]*?\\uDE00", ""), ("\\S*?$", ""), ("(?<=[^a]{1,2}?)", "u"), ("(?:\\uD83D)*", ""), ("(?=\\uDE00)", ""), ("$", "m"), ("^", "m"),
+        // one-character loops that have to give characters back / take more, in both directions
+        (".*x", "u"), (".*x", "s"), ("[^a]*b", ""), ("\\W+\\d", ""), (".*?x", "su"), ("(?<=.*x)c", "s"), ("(?<=x.*)c", "su"), ("(?<=[^a]+?b.)", ""), ("(?<!.*x)c", "s"), ("\\S{2,}\\s", "u"), (".{2,3}b", "su"), ("(?<=.{2,3})c", "su"),
     ] {
         fixed.push((p.to_string(), fl(f)));
     }
